@@ -132,7 +132,11 @@ func (it *Interp) step(fr *Frame, ins ssa.Instruction) {
 			case *ssa.Field:
 				x := it.get(fr, ins.X)
 				it.checkPoison(x)
-				it.set(fr, ins, x.Ref.(*Agg).v[ins.Field])
+				ag, isAgg := x.Ref.(*Agg)
+				if !isAgg {
+					it.unsupported("field access on an opaque value of type " + typeStr(ins.X.Type()))
+				}
+				it.set(fr, ins, ag.v[ins.Field])
 			case *ssa.FieldAddr:
 				x := it.get(fr, ins.X)
 				c := it.cellOf(x)
